@@ -73,8 +73,15 @@ THEOREMS = [
     "C08_line_printed / C08_header_printed: every line fragment of a tree occurs in its printed text; every header fragment too unless the table is implicit without lines",
     "C08_verbatim_text / C08_history_verbatim_text: the text printed after an edit contains, byte for byte, the key/value line of every untouched entry",
     "C08_step_tbl_wf / C08_step_wf_text / C08_history_wf_text: every operation (all 16 kinds) preserves Spec/WF.v (tbl_wf proved per operation under the decidable `wf_side`; limits and section order under the boolean checks of the result `lim_side` / `order_side`, proved sound); C08_order_free: array operations and fmt never break order_ok",
-    "C08_text_roundtrip: GIVEN the WF backbone's print/parse theorem (explicit premise), the text printed after any history meeting its side conditions parses to abs t' = spec_apply_all ops (abs t)",
-    "NOT proved (checked by the oracle on the implementation): relative order of the fragments across sections as one theorem; printed text is valid TOML and re-parses to abs t' (C06 round trip)",
+    "TEXT ROUND TRIP, closed against the WF backbone (Proofs/EditTextClose.v; no premise left): C08_text_roundtrip_closed: WF t -> apply_seq ops t = Some t' -> "
+    "history_side ops t = true -> the text printed after the history is ACCEPTED and its data = text_data (abs t') = text_data (spec_apply_all ops (abs t)) "
+    "(data with table kinds / inline flags erased, each standard table listed key/value lines first - what the text forces: a value inserted behind [t] prints in front "
+    "of it); C08_text_roundtrip_exact_order: storage order itself when lines_first holds; C08_bridge_parsed / _printed / C08_lines_first: the two abstractions related; "
+    "ex_roundtrip_exact_refuted: exact storage-order equality is false in general (why the old premise was unprovable)",
+    "C08_parsed_text_roundtrip: for a document that was PARSED first (parse_WF discharges well-formedness) the only premise on the tree is the decidable order_ok; "
+    "C08_parsed_text_roundtrip_any_order (premise: the closed boolean replay_ok t') and C08_parsed_text_roundtrip_unordered (same data up to the order of table entries) "
+    "need no order condition; C08_history_slots: the side conditions preserve the three WF clauses other than order_ok",
+    "NOT proved (checked by the oracle on the implementation): relative order of the fragments across sections as one theorem",
 ]
 RULE = ("(1) gen_toml documents (random layout, comments and whitespace in every decor slot) x random operation lists "
         "(length <= 12 quick) on existing / missing / wrongly typed paths over the document's own keys plus fresh keys; "
@@ -83,7 +90,7 @@ RULE = ("(1) gen_toml documents (random layout, comments and whitespace in every
         "non-trivial = at least two operations applied")
 ASSUMPTIONS = [
     "IndexMap = insertion-ordered association list, sort_keys = stable sort, Vec = list",
-    "the text-level half (printed text is valid TOML and re-parses to the edited content) is checked on the implementation, not proved (print/parse round trip = C06)",
+    "the text-level half is proved for histories meeting the decidable side conditions (exactly where the known classes live); outside them it is checked on the implementation",
 ]
 
 
